@@ -10,6 +10,8 @@ NOT_DECIDED = "condition toggling histories (runtime)"
 
 
 def check(ctx):
+    _framing.per_tick_over_actives(ctx)
+    _framing.precur_rule(ctx, "T3-precur")
     _framing.suspender(ctx)
     _framing.aux_pairing(ctx)
     # suspension and resumption work through Framer.change/activate/reactivate/deactivate: their state rules (C05) are part of this property
